@@ -261,10 +261,17 @@ StepResult(st, o, c, sc) ==
                  ELSE IF primary # S.out \o RvText(S) THEN "the program output differs; expected: " \o S.out \o RvText(S)
                  ELSE IF st.mode = "out" /\ o.out # "" THEN "with --out the program wrote to standard output"
                  ELSE IF ~o.err_empty THEN "a successful run wrote to standard error" ELSE ""
+            ELSE IF Has(st, "want_pos") THEN
+                 \* a text whose only error sits at a place the generator knows: the message names that line and column
+                 IF o.status = 0 THEN "a text with a compile error ended with status 0"
+                 ELSE IF ~o.err_pos THEN "no line:column in the error message: " \o o.err
+                 ELSE IF o.err_line # st.want_pos.l \/ o.err_col # st.want_pos.c
+                      THEN "the error is reported at " \o ToString(o.err_line) \o ":" \o ToString(o.err_col) \o ", it is at " \o ToString(st.want_pos.l) \o ":" \o ToString(st.want_pos.c)
+                 ELSE ""
             ELSE IF Has(st, "same_out_as") THEN
                  LET b == sc.obs[st.same_out_as] IN
                  IF (o.status = 0) # (b.oc = "ok") THEN "exit status " \o ToString(o.status) \o " but the library run reported " \o b.oc
-                 ELSE IF b.oc = "ok" /\ SubSeq(primary, 1, Len(b.out)) # b.out THEN "the command prints something else than the library run"
+                 ELSE IF b.oc = "ok" /\ (Len(primary) < Len(b.out) \/ SubSeq(primary, 1, Len(b.out)) # b.out) THEN "the command prints something else than the library run"
                  ELSE IF b.oc = "runtime_error" /\ primary # b.out THEN "output before the error differs from the library run"
                  ELSE IF b.oc # "ok" /\ o.err_empty THEN "no error message on standard error" ELSE ""
             ELSE ""]
